@@ -81,5 +81,5 @@ fn run(r: &mut Run) -> Result<(), MachineryError> {
     let ints = frag_menu(&[0.0, 1.0, 2.0, 3.0, 5.0], &[0.0, 1.0, 2.0], &[0.0, 1.0]);
     space(r, "C06/finite-wild(128-menu)", wild, t.pick(2, 3))?;
     space(r, "C06/integers(30-menu)", ints, t.pick(4, 5))?;
-    Ok(())
+    scale::frag_scale(r, "C06/long-periodic", "C06")
 }
